@@ -1,10 +1,10 @@
 #!/bin/sh
-# Rebuilds the generated parts of coq/Proofs/CliBase.v in place (between the GENERATED markers).
+# Rebuilds the generated parts of coq/Proofs/CliBaseProj.v in place (between the GENERATED markers).
 set -e
 cd "$(dirname "$0")/../coq"
 python3 - <<'PY'
 import subprocess
-p='Proofs/CliBase.v'
+p='Proofs/CliBaseProj.v'
 s=open(p).read()
 def gen(mode): return subprocess.check_output(['python3','../tools/gen_clibase.py',mode],text=True)
 def put(s,tag,body):
